@@ -134,6 +134,13 @@ fn bitvecs() -> Vec<(String, Vec<bool>)> {
     for (period, phase) in [(2usize, 0usize), (2, 1), (3, 0), (3, 1), (3, 2), (4, 1), (4, 3), (5, 2), (7, 6)] {
         v.push((format!("one-per-word-class(words = {phase} mod {period}, 40 words)"), (0..40 * 64).map(|i| (i / 64) % period == phase && i % 64 == (i / 64) % 61).collect()));
     }
+    // densities that drive the selection structures into each of their span classes (one in 8 .. one in 300),
+    // at lengths whose word counts take both parities (so every inner array lands on 0 and on 8 mod 16)
+    for gap in [8usize, 16, 20, 40, 64, 128, 300] {
+        for len in [60_000usize, 100_064, 131_136 + 64] {
+            v.push((format!("one in {gap} ({len} bits)"), (0..len).map(|i| i % gap == (gap / 3)).collect()));
+        }
+    }
     v.push(("sparse(200000, ones 70000 apart)".into(), (0..200_000).map(|i| i % 70_000 == 5).collect()));
     v.push(("dense-with-hole(140000)".into(), (0..140_000).map(|i| !(1000..70_000).contains(&i)).collect()));
     v
